@@ -40,7 +40,8 @@
 //! * probe-y.diff — `DataFrame::with_param_values` replaces typed NULL values by the untyped `ScalarValue::Null`: survived 800 cases —
 //!   an equivalent mutant for this fragment (the analyzer coerces the untyped NULL to the type of its context; IN lists, CASE and
 //!   comparisons give the same rows).
-//! * probe-z.diff — `DataFrame::with_param_values` swaps the first two positional values: see the report of the run (added last).
+//! * probe-z.diff — `DataFrame::with_param_values` swaps the first two positional values: VIOLATION after 48 cases
+//!   ("route dataframe returns other rows than the literal query: expected (0, NULL) got (0, 1)").
 //! * fixes-all.diff: `./check C41 quick` exits 0 with the repair patch (PREPARE stores the unoptimized plan).
 use crate::tape::Tape;
 use datafusion::common::{ParamValues, ScalarValue};
@@ -569,7 +570,9 @@ impl Property for C41 {
     }
     /// outcome-keyed: the signature of the observed failure (None when the case does not fail)
     fn known_signature(&self, case: &Case) -> Option<String> {
-        evaluate(case).1
+        // the engine calls this outside its panic guard: a panic of the code under test must not escape from here. The case is then
+        // evaluated again by `run` (inside the guard), where the engine classifies the panic by its location.
+        std::panic::catch_unwind(std::panic::AssertUnwindSafe(|| evaluate(case).1)).unwrap_or(None)
     }
     fn run(&self, case: &Case) -> CaseResult {
         evaluate(case).0
